@@ -5,8 +5,6 @@ pub trait Wire { spec fn bytes(&self) -> Seq<u8>; }
 pub trait Encode: Wire {}
 #[verifier::external_body]
 pub struct Plugin { _p: u8 }
-/// struct stand-in: the functions under contract only pass `plugin` through, opaquely
-pub struct Impl { pub plugin: Plugin }
 
 //@ enum crates/storage/src/kv_database.rs :: DiscriminantEncoding
 #[derive(PartialEq, Eq, Structural, Clone, Copy)]
